@@ -226,6 +226,10 @@ def run(A, R: Report, thorough: bool):
                         f'first-pass tasks are shared through `{pm_value}` under (slugname, config without namespace): a config mounted under two namespaces with per-namespace context gets one task object, '
                         'so the second namespace reads the first one\'s parameter values', where=where(f, c))
 
+    # ---- R01.8 key derivation is stateless
+    from .purity import check_key_stateless
+    check_key_stateless(A, R, 'R01.8')
+
     # ---- R01.7
     R.rule('R01.7', 'class-level parameter declarations pass deepcopy before they reach the task\'s ParameterRegistry', floor=1)
     cfg = A.cfg(fpp)
